@@ -7,9 +7,10 @@ pub mod c03;
 pub mod common;
 pub mod edit;
 pub mod edits;
+pub mod small;
 
 pub fn all_ids() -> Vec<&'static str> {
-    vec!["C01", "C02", "C03", "C06", "C07", "C08", "C09", "C10", "C11"]
+    vec!["C01", "C02", "C03", "C06", "C07", "C08", "C09", "C10", "C11", "C12", "C13", "C14", "C28", "C29", "C30"]
 }
 
 pub fn get(id: &str) -> Option<Box<dyn Driver>> {
@@ -23,6 +24,12 @@ pub fn get(id: &str) -> Option<Box<dyn Driver>> {
         "C09" => Box::new(edits::c09()),
         "C10" => Box::new(edits::c10()),
         "C11" => Box::new(edits::c11()),
+        "C12" => Box::new(small::BuiltFunctions),
+        "C13" => Box::new(small::AddedTypes),
+        "C14" => Box::new(small::AddedLocals),
+        "C28" => Box::new(small::CustomSections),
+        "C29" => Box::new(edits::c29()),
+        "C30" => Box::new(edits::c30()),
         _ => return None,
     })
 }
